@@ -122,6 +122,12 @@ def locks_on_path(nodes, prefix, lock_callee):
 def rule_one_lock(facts, rep):
     for crate, ty, prefix, lock_callee in STREAMS:
         for meth in METHODS:
+            rep.guarded("one-lock", prefix + meth, lambda a=(crate, ty, prefix, lock_callee, meth): one_lock_method(facts, rep, *a))
+
+
+def one_lock_method(facts, rep, crate, ty, prefix, lock_callee, meth):
+    if True:
+        if True:
             b = facts.body(crate, prefix + meth)
             rep.fn(b["path"])
             paths = hir.enumerate_paths(b["hir"])   # raises on loops: a lock inside a loop fails closed
